@@ -1,0 +1,229 @@
+//go:build verif && !noasm && !appengine && gc
+// +build verif,!noasm,!appengine,gc
+
+package simdjson
+
+// Exported accessors used only by the external verification harness.
+// Nothing here is compiled unless the build tag "verif" is set.
+
+import (
+	"github.com/klauspost/cpuid/v2"
+)
+
+// VerifTables returns the run-time contents of the package's lookup tables.
+func VerifTables() map[string][]uint64 {
+	m := map[string][]uint64{}
+	add := func(name string, n int, f func(i int) uint64) {
+		v := make([]uint64, n)
+		for i := range v {
+			v[i] = f(i)
+		}
+		m[name] = v
+	}
+	b2u := func(b bool) uint64 {
+		if b {
+			return 1
+		}
+		return 0
+	}
+	add("isNumberRune", 256, func(i int) uint64 { return uint64(isNumberRune[i]) })
+	add("structuralOrWhitespaceNegated", 256, func(i int) uint64 { return uint64(structuralOrWhitespaceNegated[i]) })
+	add("jsonMarkupTable", 256, func(i int) uint64 { return b2u(jsonMarkupTable[i]) })
+	add("TagToType", 256, func(i int) uint64 { return uint64(TagToType[i]) })
+	add("tagOpenToClose", 256, func(i int) uint64 { return uint64(tagOpenToClose[i]) })
+	add("shouldEscape", 256, func(i int) uint64 { return b2u(shouldEscape[i]) })
+	add("valToHex", 16, func(i int) uint64 { return uint64(valToHex[i]) })
+	return m
+}
+
+// VerifConsts returns the run-time values of package-level constants.
+func VerifConsts() map[string]uint64 {
+	return map[string]uint64{
+		"JSONVALUEMASK":             JSONVALUEMASK,
+		"JSONTAGOFFSET":             JSONTAGOFFSET,
+		"JSONTAGMASK":               JSONTAGMASK,
+		"STRINGBUFBIT":              STRINGBUFBIT,
+		"STRINGBUFMASK":             STRINGBUFMASK,
+		"maxdepth":                  maxdepth,
+		"indexSlots":                indexSlots,
+		"indexSize":                 indexSize,
+		"indexSizeWithSafetyBuffer": indexSizeWithSafetyBuffer,
+		"retAddressShift":           retAddressShift,
+		"retAddressStartConst":      retAddressStartConst,
+		"retAddressObjectConst":     retAddressObjectConst,
+		"retAddressArrayConst":      retAddressArrayConst,
+		"isPartOfNumberFlag":        isPartOfNumberFlag,
+		"isFloatOnlyFlag":           isFloatOnlyFlag,
+		"isMinusFlag":               isMinusFlag,
+		"isEOVFlag":                 isEOVFlag,
+		"isDigitFlag":               isDigitFlag,
+		"isMustHaveDigitNext":       isMustHaveDigitNext,
+		"FloatOverflowedInteger":    uint64(FloatOverflowedInteger),
+		"TagString":                 uint64(TagString),
+		"TagInteger":                uint64(TagInteger),
+		"TagUint":                   uint64(TagUint),
+		"TagFloat":                  uint64(TagFloat),
+		"TagNull":                   uint64(TagNull),
+		"TagBoolTrue":               uint64(TagBoolTrue),
+		"TagBoolFalse":              uint64(TagBoolFalse),
+		"TagObjectStart":            uint64(TagObjectStart),
+		"TagObjectEnd":              uint64(TagObjectEnd),
+		"TagArrayStart":             uint64(TagArrayStart),
+		"TagArrayEnd":               uint64(TagArrayEnd),
+		"TagRoot":                   uint64(TagRoot),
+		"TagNop":                    uint64(TagNop),
+		"TagEnd":                    uint64(TagEnd),
+		"tagFloatWithFlag":          uint64(tagFloatWithFlag),
+		"stringBits":                stringBits,
+		"serializedVersion":         serializedVersion,
+		"blockTypeUncompressed":     uint64(blockTypeUncompressed),
+		"blockTypeS2":               uint64(blockTypeS2),
+		"blockTypeZstd":             uint64(blockTypeZstd),
+	}
+}
+
+// VerifSetAVX512 selects the stage-1 kernel family (process global).
+func VerifSetAVX512(on bool) {
+	if on {
+		cpuid.CPU.Enable(cpuid.AVX512F)
+	} else {
+		cpuid.CPU.Disable(cpuid.AVX512F)
+	}
+}
+
+// VerifHasAVX512 reports the currently selected family.
+func VerifHasAVX512() bool { return cpuid.CPU.Has(cpuid.AVX512F) }
+
+// VerifStage1 runs findStructuralIndices alone on msg (no trimming) and
+// returns the index buffers (increments) in hand-off order and the verdict.
+func VerifStage1(msg []byte, ndjson bool) (buffers [][]uint32, ok bool) {
+	pj := &internalParsedJson{}
+	pj.Message = msg
+	if ndjson {
+		pj.ndjson = 1
+	}
+	pj.indexChans = make(chan indexChan, indexSlots-2)
+	pj.buffersOffset = ^uint64(0)
+	done := make(chan struct{})
+	go func() {
+		defer close(done)
+		for ic := range pj.indexChans {
+			if ic.index == -1 {
+				return
+			}
+			b := make([]uint32, ic.length)
+			copy(b, ic.indexes[:ic.length])
+			buffers = append(buffers, b)
+		}
+	}()
+	ok = pj.findStructuralIndices()
+	<-done
+	return buffers, ok
+}
+
+// VerifParseNumber exposes parseNumber.
+func VerifParseNumber(buf []byte) (tag, val uint64) { return parseNumber(buf) }
+
+// VerifAtoms exposes the three atom validators.
+func VerifAtoms(buf []byte) (t, f, n bool) {
+	return isValidTrueAtom(buf), isValidFalseAtom(buf), isValidNullAtom(buf)
+}
+
+// VerifParseString runs parseString on a message (opening quote at idx) with
+// an explicit maxStringSize and copy mode, returning what it put on the tape
+// and into the string buffer.
+func VerifParseString(msg []byte, idx, maxStringSize uint64, needCopy bool) (ok bool, tape []uint64, strs []byte) {
+	pj := &ParsedJson{Message: msg, Strings: &TStrings{B: make([]byte, 0, 128)}}
+	ok = parseString(pj, idx, maxStringSize, needCopy)
+	return ok, pj.Tape, pj.Strings.B
+}
+
+// VerifStringValidate calls the validate-only routine on a raw padded buffer
+// whose first byte is the opening quote.
+func VerifStringValidate(buf []byte, maxStringSize uint64) (ok bool, srcLen, dstLen uint64, needCopy bool) {
+	nc := false
+	ok = parseStringSimdValidateOnly(buf, &maxStringSize, &dstLen, &nc)
+	return ok, 0, dstLen, nc
+}
+
+// VerifKernelState is the carried state of the stage-1 block kernels.
+type VerifKernelState struct {
+	OddBackslash, InsideQuote, ErrorMask, PseudoPred uint64
+}
+
+// VerifFindStructuralBits runs one 64-byte block through the per-block kernel
+// of the selected family.
+func VerifFindStructuralBits(block []byte, st *VerifKernelState, avx512 bool) uint64 {
+	if avx512 {
+		return find_structural_bits_avx512(block, &st.OddBackslash, &st.InsideQuote, &st.ErrorMask, 0, &st.PseudoPred)
+	}
+	return find_structural_bits(block, &st.OddBackslash, &st.InsideQuote, &st.ErrorMask, 0, &st.PseudoPred)
+}
+
+// VerifSliceKernel runs the in-slice kernel of either family on buf.
+func VerifSliceKernel(buf []byte, st *VerifKernelState, indexes []uint32, index *int, carried, position *uint64, ndjson uint64, avx512 bool) uint64 {
+	var ix [indexSize]uint32
+	copy(ix[:], indexes)
+	var p uint64
+	if avx512 {
+		p = find_structural_bits_in_slice_avx512(buf, &st.OddBackslash, &st.InsideQuote, &st.ErrorMask, &st.PseudoPred, &ix, index, carried, position, ndjson)
+	} else {
+		p = find_structural_bits_in_slice(buf, &st.OddBackslash, &st.InsideQuote, &st.ErrorMask, &st.PseudoPred, &ix, index, carried, position, ndjson)
+	}
+	copy(indexes, ix[:])
+	return p
+}
+
+// VerifSubKernels exposes the individual mask kernels for one 64-byte block.
+func VerifSubKernels(block []byte, st VerifKernelState, avx512 bool) (oddEnds, quoteMask, quoteBits, errMask, whitespace, structurals, nextOdd, nextQuote uint64) {
+	odd := st.OddBackslash
+	inq := st.InsideQuote
+	errMask = st.ErrorMask
+	if avx512 {
+		oddEnds = find_odd_backslash_sequences_avx512(block, &odd)
+		quoteMask = find_quote_mask_and_bits_avx512(block, oddEnds, &inq, &quoteBits, &errMask)
+		find_whitespace_and_structurals_avx512(block, &whitespace, &structurals)
+	} else {
+		oddEnds = find_odd_backslash_sequences(block, &odd)
+		quoteMask = find_quote_mask_and_bits(block, oddEnds, &inq, &quoteBits, &errMask)
+		find_whitespace_and_structurals(block, &whitespace, &structurals)
+	}
+	return oddEnds, quoteMask, quoteBits, errMask, whitespace, structurals, odd, inq
+}
+
+// VerifFinalize exposes finalize_structurals.
+func VerifFinalize(structurals, whitespace, quoteMask, quoteBits uint64, prev *uint64) uint64 {
+	return finalize_structurals(structurals, whitespace, quoteMask, quoteBits, prev)
+}
+
+// VerifFlatten exposes flatten_bits_incremental.
+func VerifFlatten(base []uint32, index *int, mask uint64, carried *int, position *uint64) {
+	var ix [indexSize]uint32
+	copy(ix[:], base)
+	flatten_bits_incremental(&ix, index, mask, carried, position)
+	copy(base, ix[:])
+}
+
+// VerifChanState reports the capacity and current length of the index channel
+// of the internal state behind pj (0,0 when there is none).
+func VerifChanState(pj *ParsedJson) (capacity, length int, hasInternal bool) {
+	if pj == nil || pj.internal == nil || pj.internal.indexChans == nil {
+		return 0, 0, pj != nil && pj.internal != nil
+	}
+	return cap(pj.internal.indexChans), len(pj.internal.indexChans), true
+}
+
+// VerifAppendFloat exposes appendFloat.
+func VerifAppendFloat(dst []byte, f float64) ([]byte, error) { return appendFloat(dst, f) }
+
+// VerifEscapeBytes exposes escapeBytes.
+func VerifEscapeBytes(dst, src []byte) []byte { return escapeBytes(dst, src) }
+
+// VerifID returns the identity under which events of pj's internal state are
+// reported (0 when pj has none).
+func VerifID(pj *ParsedJson) uintptr {
+	if pj == nil || pj.internal == nil {
+		return 0
+	}
+	return verifID(pj.internal)
+}
